@@ -101,6 +101,13 @@ Proof.
   right. exists s'. split; [reflexivity|]. simpl. apply in_app_iff. now right.
 Qed.
 
+Lemma exec_in_run : forall ops s sf, exec ops s = Some sf -> In sf (s :: run ops s).
+Proof.
+  induction ops as [|o ops IH]; intros s sf H; simpl in *.
+  - inversion H. now left.
+  - destruct (step o s) as [s'|]; [|discriminate]. right. now apply IH.
+Qed.
+
 (* ---- the temp-file protocol ---------------------------------------------------------- *)
 
 Section TmpRename.
@@ -225,6 +232,78 @@ Proof.
   exists sf. repeat split; assumption.
 Qed.
 
+(* ---- a call of the save fails --------------------------------------------------------------- *)
+
+Lemma crash_states_prefix pre post s c :
+  In c (crash_states pre s) -> In c (crash_states (pre ++ post) s).
+Proof.
+  unfold crash_states. rewrite run_app. simpl. rewrite flat_map_app, !in_app_iff.
+  intros [H|H]; [now left|right; now left].
+Qed.
+
+Lemma In_fdel p q b l : In (p, b) (fdel q l) -> In (p, b) l.
+Proof.
+  induction l as [|[r c] t IH]; simpl; [auto|].
+  destruct (Nat.eqb q r); simpl; intro H; [right; now apply IH|].
+  destruct H as [H|H]; [now left|right; now apply IH].
+Qed.
+
+Lemma quiet_close d0 s s' : quiet d0 s -> step (Close tmp) s = Some s' -> quiet d0 s'.
+Proof.
+  intros [Hd [Hb Ht]] H. simpl in H. destruct (lookup tmp (bufs s)) as [b|]; [|discriminate].
+  inversion H; subst s'. clear H. repeat split; simpl.
+  - rewrite lookup_fappend_other by assumption. assumption.
+  - intros p b' Hin. apply (Hb p b'). eapply In_fdel; eassumption.
+  - assumption.
+Qed.
+
+(* any prefix of the protocol, optionally followed by the close of the temporary file: the
+   storage file is as before or completely new at every crash point *)
+Theorem prefix_then_close_atomic chunks d0 pre post extra c :
+  save_ops tmp target chunks = pre ++ post ->
+  extra = [] \/ extra = [Close tmp] ->
+  In c (crash_states (pre ++ extra) (init d0)) ->
+  lookup target c = lookup target d0 \/ lookup target c = Some (concat chunks).
+Proof.
+  intros Split Hx Hc.
+  assert (P : forall c', In c' (crash_states pre (init d0)) ->
+              lookup target c' = lookup target d0 \/ lookup target c' = Some (concat chunks)).
+  { intros c' H. apply (tmp_rename_atomic chunks d0). rewrite Split. now apply crash_states_prefix. }
+  destruct Hx as [->| ->]; [rewrite app_nil_r in Hc; now apply P|].
+  apply crash_states_app in Hc as [Hc|(s' & Hex & Hc)]; [now apply P|].
+  unfold crash_states in Hc. cbn [run flat_map] in Hc.
+  apply in_app_iff in Hc as [Hc|Hc].
+  - apply P. unfold crash_states. apply in_flat_map. exists s'. split; [now apply exec_in_run|assumption].
+  - destruct (step (Close tmp) s') as [s''|] eqn:St; [|contradiction].
+    cbn [run flat_map] in Hc. rewrite app_nil_r in Hc.
+    (* s' is one of the states of the complete run *)
+    destruct (save_run chunks d0) as (mids & sf & Hrun & _ & Hq & _ & _ & Hb & _).
+    assert (Hin : In s' (init d0 :: mids ++ [sf])).
+    { rewrite <- Hrun, Split, run_app. pose proof (exec_in_run pre (init d0) s' Hex) as X.
+      destruct X as [X|X]; [now left|right]. apply in_app_iff. now left. }
+    destruct Hin as [<-|Hin].
+    + left. apply (quiet_safe d0 s''); [|assumption]. apply (quiet_close d0 (init d0)); [|assumption].
+      split; [reflexivity|]. split; [|reflexivity]. intros p b [].
+    + apply in_app_iff in Hin as [Hin|[<-|[]]].
+      * left. apply (quiet_safe d0 s''); [|assumption]. apply (quiet_close d0 s'); [|assumption].
+        rewrite Forall_forall in Hq. now apply Hq.
+      * simpl in St. rewrite Hb in St. discriminate.
+Qed.
+
+Theorem failed_save_atomic chunks d0 f c :
+  In c (crash_states (fault_ops tmp d0 f (save_ops tmp target chunks)) (init d0)) ->
+  lookup target c = lookup target d0 \/ lookup target c = Some (concat chunks).
+Proof.
+  unfold fault_ops.
+  set (x := if still_open tmp d0 (firstn f (save_ops tmp target chunks))
+               && negb (match nth_error (save_ops tmp target chunks) f with Some (Close _) => true | _ => false end)
+            then [Close tmp] else []).
+  intro H.
+  apply (prefix_then_close_atomic chunks d0 (firstn f (save_ops tmp target chunks))
+           (skipn f (save_ops tmp target chunks)) x c); [now rewrite firstn_skipn| |exact H].
+  unfold x. destruct (still_open tmp d0 _ && _); [now right|now left].
+Qed.
+
 (* any number of saves one after the other: at every crash point the storage file holds
    the initial content or the complete content of one of the saves *)
 Theorem repeated_saves : forall css d0 c,
@@ -285,13 +364,6 @@ Proof.
 Qed.
 
 (* ---- a temporary file that is not truncated ------------------------------------------------ *)
-
-Lemma exec_in_run : forall ops s sf, exec ops s = Some sf -> In sf (s :: run ops s).
-Proof.
-  induction ops as [|o ops IH]; intros s sf H; simpl in *.
-  - inversion H. now left.
-  - destruct (step o s) as [s'|]; [|discriminate]. right. now apply IH.
-Qed.
 
 Lemma final_in_crash_states ops s0 sf :
   exec ops s0 = Some sf -> bufs sf = [] -> In (overlay (tails sf) (disk sf)) (crash_states ops s0).
